@@ -171,6 +171,8 @@ class Job:
             cmd += ["--external-sat-solver", "kissat"]
         if trace_prop:
             cmd += ["--property", trace_prop, "--trace", "--json-ui"]
+        else:
+            cmd += ["--verbosity", "8"]          # statistics lines: symex steps, VCCs, solver time
         return cmd
 
 
@@ -364,9 +366,12 @@ def run_cbmc(job):
         m = re.match(r"Generated (\d+) VCC\(s\), (\d+) remaining", line)
         if m:
             res["vccs"] = int(m.group(2))
-        m = re.match(r"Runtime (?:decision procedure|Solver): ([\d.e+-]+)s", line)
+        m = re.match(r"Runtime decision procedure: ([\d.e+-]+)s", line)
         if m:
             res["solver_s"] += float(m.group(1))
+        m = re.match(r"Runtime Symex: ([\d.e+-]+)s", line)
+        if m:
+            res["symex_s"] = res.get("symex_s", 0.0) + float(m.group(1))
     done = ("VERIFICATION SUCCESSFUL" in out) or ("VERIFICATION FAILED" in out)
     if not done or rc not in (0, 10):
         res["status"] = "INCONCLUSIVE"
@@ -763,6 +768,7 @@ def write_evidence(prop, tier, results, meta, wall, violations, known_hits, inco
             "assertions_checked_total": sum(r.get("nprops", 0) for r in results),
             "symex_steps_total": sum(r.get("steps", 0) for r in results),
             "solver_s_total": round(sum(r.get("solver_s", 0.0) for r in results), 2),
+            "symex_s_total": round(sum(r.get("symex_s", 0.0) for r in results), 2),
             "query_wall_s_total": round(sum(r.get("wall_s", 0.0) for r in results), 2),
             "backends": backends,
             "facets": facets,
